@@ -42,7 +42,17 @@ META = {
     "design_ref": "DESIGN.md 2 C10",
 }
 
-W = int(os.environ.get("VERIF_TLC_WORKERS", "8"))     # per TLC process; two processes run side by side
+
+
+def _workers():
+    """Workers per TLC process: two processes run side by side, so half of what lib/verif.py would give one."""
+    if os.environ.get("VERIF_TLC_WORKERS"):
+        return int(os.environ["VERIF_TLC_WORKERS"])
+    total = getattr(verif, "default_workers", lambda: verif.NCPU)()
+    return max(2, total // 2)
+
+
+W = _workers()
 HEAP = os.environ.get("VERIF_TLC_HEAP", "4g")
 
 # actions that cannot fire in a given run by construction (not vacuity)
@@ -102,10 +112,10 @@ class SpecStream(threading.Thread):
             fine = ["MC_fine_q1", "MC_fine_q2"] if quick else \
                    ["MC_fine_q1", "MC_fine_q2", "MC_fine_t1", "MC_fine_t2", "MC_fine_t3", "MC_fine_t4"]
             for cfg in fine:
-                model_check(ctx, cfg, 1500 if quick else 3000, coverage=(not quick and cfg == "MC_fine_t1"))
-            model_check(ctx, "MC_live_q" if quick else "MC_live_t", 1500 if quick else 3000)
+                model_check(ctx, cfg, 1500 if quick else 7200, coverage=(not quick and cfg == "MC_fine_t1"))
+            model_check(ctx, "MC_live_q" if quick else "MC_live_t", 1500 if quick else 7200)
             for cfg in (["MC_coarse_q"] if quick else ["MC_coarse_t", "MC_coarse_t2", "MC_coarse_t3", "MC_coarse_t4"]):
-                model_check(ctx, cfg, 1500 if quick else 3000)
+                model_check(ctx, cfg, 1500 if quick else 7200)
             if not quick:
                 as_code_must_hang(ctx, "MC_ascode_nohang", "NoHang")
         except BaseException as ex:   # re-raised in the main thread
@@ -201,9 +211,9 @@ def run(ctx):
                                             "Deadlock reached: " + specs.f1_trace)
         ctx.absorb(res, "replay (grain call: one step per returning replica call; grain hook: one step per stretch between yield points)")
         if not quick:
-            p1, n1 = generate(ctx, "MC_gen_call_t", 2400)
-            p2, n2 = generate(ctx, "MC_gen_hook_t", 2400)
-            p3, n3 = generate(ctx, "MC_gen_call_t2", 2400)
+            p1, n1 = generate(ctx, "MC_gen_call_t", 7200)
+            p2, n2 = generate(ctx, "MC_gen_hook_t", 7200)
+            p3, n3 = generate(ctx, "MC_gen_call_t2", 7200)
             res = replay(ctx, [p1, p2, p3], n1 + n2 + n3, 3000, real_every=1)
             ctx.absorb(res, "replay (thorough universe)")
             n_call, n_hook = n_call + n1 + n3, n_hook + n2
@@ -211,7 +221,7 @@ def run(ctx):
         ctx.extra["behaviours_grain_hook"] = n_hook
 
         # 4. code -> spec
-        res, ntr, nrej = race_and_validate(ctx, call_path, 100 if quick else 600, 1500 if quick else 3000,
+        res, ntr, nrej = race_and_validate(ctx, call_path, 100 if quick else 600, 1500 if quick else 7200,
                                            corrupt=(3 if corrupt else 0))
         ctx.absorb(res, "race traces validated by BatchTrace.tla")
         ctx.extra["race_traces"] = ntr
